@@ -1,5 +1,6 @@
 // White-box driver for outqueue.c: random operation histories on the real lzma_outq.
-//  tokens: G | W<i>,<hex> | F<i> | R<n> | I (lzma_outq_init again)      (i = index among the live buffers, head = 0)
+//  tokens: G[<size>] (buffer of that size, default 64; the buffer handed out must have exactly the size asked for:
+//          the threaded encoder relies on it to detect incompressible Blocks) | W<i>,<hex> | F<i> | R<n> | I (lzma_outq_init again)      (i = index among the live buffers, head = 0)
 //  -> hex of everything delivered by the reads, in order, then " <bufs_in_use> <mem consistent?>"
 #include "outqueue.c"
 #include <stdio.h>
@@ -13,12 +14,14 @@ int main(void)
 	while (fgets(line, sizeof line, stdin)) {
 		lzma_outq q; memset(&q, 0, sizeof q);
 		if (lzma_outq_init(&q, NULL, 64) != LZMA_OK) { printf("ERR\n"); continue; }
-		lzma_outbuf *live[256]; int nl = 0; int first = 1;
+		lzma_outbuf *live[256]; int nl = 0; int first = 1; int exact = 1;
 		for (char *tok = strtok(line, " \n"); tok; tok = strtok(NULL, " \n")) {
 			if (tok[0] == 'G') {
 				if (q.bufs_in_use >= q.bufs_limit || nl >= 200) continue;
-				if (lzma_outq_prealloc_buf(&q, NULL, BUFSZ) != LZMA_OK) continue;
+				size_t want = tok[1] ? (size_t)atoi(tok + 1) : BUFSZ; if (want < BUFSZ || want > 65536) want = BUFSZ;   // never smaller than what W may write
+				if (lzma_outq_prealloc_buf(&q, NULL, want) != LZMA_OK) continue;
 				live[nl++] = lzma_outq_get_buf(&q, NULL);
+				if (live[nl - 1]->allocated != want) exact = 0;
 			} else if (tok[0] == 'W') {
 				int i = atoi(tok + 1); char *h = strchr(tok, ','); if (!h || i >= nl) continue; h++;
 				lzma_outbuf *b = live[i]; if (b->finished) continue;
@@ -39,7 +42,7 @@ int main(void)
 		}
 		if (first) printf("-");
 		uint64_t mem = 0; for (lzma_outbuf *b = q.head; b; b = b->next) mem += lzma_outq_outbuf_memusage(b->allocated);
-		printf(" %u %d\n", q.bufs_in_use, mem == q.mem_in_use && (int)q.bufs_in_use == nl);
+		printf(" %u %d\n", q.bufs_in_use, mem == q.mem_in_use && (int)q.bufs_in_use == nl && exact);
 		lzma_outq_end(&q, NULL);
 		fflush(stdout);
 	}
